@@ -5,6 +5,7 @@ import (
 	"go/ast"
 	"go/token"
 	"go/types"
+	"golang.org/x/tools/go/packages"
 	"sort"
 	"strings"
 )
@@ -108,6 +109,22 @@ func counterAgreement(c *Ctx, rule string) {
 							if call, ok := as.Rhs[0].(*ast.CallExpr); ok && len(call.Args) == 3 {
 								stores = append(stores, store{types.ExprString(ix2.X), types.ExprString(ix2.Index), types.ExprString(ix.Index),
 									types.ExprString(call.Args[0]), types.ExprString(call.Args[1]), types.ExprString(call.Args[2]), as.Pos(), b})
+							}
+						}
+					}
+				}
+				// a call of a mirror helper: h(NewPosition(i1,l1,c1), NewPosition(i2,l2,c2)) where h stores X[a.Line][a.Col] = b
+				// and Y[b.Line][b.Col] = a for its two parameters
+				if es, ok := st.(*ast.ExprStmt); ok {
+					if call, ok := es.X.(*ast.CallExpr); ok && len(call.Args) == 2 {
+						if m1, m2, okH := mirrorHelper(pp, calleeOf(info, call)); okH {
+							a, okA := ast.Unparen(call.Args[0]).(*ast.CallExpr)
+							bb, okB := ast.Unparen(call.Args[1]).(*ast.CallExpr)
+							if okA && okB && len(a.Args) == 3 && len(bb.Args) == 3 {
+								stores = append(stores, store{m1, types.ExprString(a.Args[1]), types.ExprString(a.Args[2]),
+									types.ExprString(bb.Args[0]), types.ExprString(bb.Args[1]), types.ExprString(bb.Args[2]), st.Pos(), b})
+								stores = append(stores, store{m2, types.ExprString(bb.Args[1]), types.ExprString(bb.Args[2]),
+									types.ExprString(a.Args[0]), types.ExprString(a.Args[1]), types.ExprString(a.Args[2]), st.Pos(), b})
 							}
 						}
 					}
@@ -635,4 +652,67 @@ func rawWriteCopiesEveryRune(c *Ctx, rule string) {
 	}
 	c.count("raw_write_loops", n)
 	c.floor(rule, 1)
+}
+
+// mirrorHelper: fn is a function of the package with two Position parameters a, b whose body stores exactly
+// X[a.Line][a.Col] = b and Y[b.Line][b.Col] = a (X ≠ Y). Returns the texts of X and Y.
+func mirrorHelper(p *packages.Package, fn *types.Func) (string, string, bool) {
+	if fn == nil || fn.Pkg() != p.Types {
+		return "", "", false
+	}
+	info := p.TypesInfo
+	for _, fd := range allFuncDecls(p) {
+		if info.Defs[fd.Name] != types.Object(fn) || fd.Body == nil {
+			continue
+		}
+		var prm []string
+		for _, pl := range fd.Type.Params.List {
+			for _, nm := range pl.Names {
+				prm = append(prm, nm.Name)
+			}
+		}
+		if len(prm) != 2 {
+			return "", "", false
+		}
+		m1, m2 := "", ""
+		n := 0
+		ast.Inspect(fd.Body, func(x ast.Node) bool {
+			as, ok := x.(*ast.AssignStmt)
+			if !ok || len(as.Lhs) != 1 || len(as.Rhs) != 1 {
+				return true
+			}
+			ix, ok := as.Lhs[0].(*ast.IndexExpr)
+			if !ok {
+				return true
+			}
+			ix2, ok := ix.X.(*ast.IndexExpr)
+			if !ok {
+				return true
+			}
+			rhs := types.ExprString(as.Rhs[0])
+			k1, k2 := types.ExprString(ix2.Index), types.ExprString(ix.Index)
+			switch {
+			case k1 == prm[0]+".Line" && k2 == prm[0]+".Col" && rhs == prm[1]:
+				m1 = types.ExprString(ix2.X)
+				n++
+			case k1 == prm[1]+".Line" && k2 == prm[1]+".Col" && rhs == prm[0]:
+				m2 = types.ExprString(ix2.X)
+				n++
+			default:
+				n += 10 // some other position store: not a pure mirror helper
+			}
+			return true
+		})
+		// the receiver name inside the helper may differ from the caller's: compare by field name only
+		strip := func(s string) string {
+			if i := strings.LastIndex(s, "."); i >= 0 {
+				return s[i+1:]
+			}
+			return s
+		}
+		if n == 2 && m1 != "" && m2 != "" && m1 != m2 {
+			return strip(m1), strip(m2), true
+		}
+	}
+	return "", "", false
 }
